@@ -413,7 +413,7 @@ def oracle(r, consts):
 def cases(ctx):
     rng = ctx.rng
     out = []
-    L = ctx.n(4, 6)
+    L = ctx.n(4, 5)     # (7^5 words in the thorough tier; the random families below go deeper)
     core = "asntekr"
     for n in range(1, L + 1):
         for w in itertools.product(core, repeat=n):
@@ -499,7 +499,7 @@ def run(ctx):
         if i % 2500 == 17:
             ctx.sample({"tx": tx0, "rx": rx0, "queued": nq, "word": w, "events": [ev for ev, _, _ in r.events][:10], "impl": [[en, st] for _, en, st in r.events][:5]})
     ctx.cov["distinct_nontrivial"] = nontriv
-    ctx.cov["rule"] = (f"every reaction word of length 1..{ctx.n(4, 6)} over {{covering ACK, stale ACK, ACK/NAK/DATA with an acknowledgement number covering nothing outstanding (length 1..3), NAK, ACK timeout, ERROR, RSTACK, ACK/NAK racing the timeout in one loop iteration}} for a single send (exhaustive), "
+    ctx.cov["rule"] = (f"every reaction word of length 1..{ctx.n(4, 5)} over {{covering ACK, stale ACK, ACK/NAK/DATA with an acknowledgement number covering nothing outstanding (length 1..3), NAK, ACK timeout, ERROR, RSTACK, ACK/NAK racing the timeout in one loop iteration}} for a single send (exhaustive), "
                        "random words of length 3..14 adding piggy-backed acks on DATA, clock advances, caller cancellation, 0..2 queued sends and all 64 start counters; 60-reaction runs wrapping the frame number; "
                        "the host's own reset request (send_reset) after a failure and at other moments, followed by a new send; non-trivial = the run contains at least one retransmission")
     ctx.exhaustive = True
